@@ -30,7 +30,35 @@ REG.add(_S.schema2("cat2sub_x_mr3_square", _S.cat("a", 2, "last"), _S.mr("m", 3)
         {"rows": [_subtotal("r12", [1, 2], anchor="bottom", sid=1)]}], quick=2, thorough=3)
 _CA33 = _S.ca("q", 3, 3, "last")
 REG.add(_Schema("ca_cats3_x_items3_square", [_CA33], [("ca_cats", 0), ("ca_items", 0)]), configs=[{}], quick=2, thorough=2)
+# tables with subtotal DIFFERENCES (their own-direction base is NaN, C04): the mask relation alone
+_A3d, _B3d = _S.cat("a", 3, "mid"), _S.cat("b", 3, "first")
+REG.add(_S.schema2("diffmask_cat3_x_cat3", _A3d, _B3d, weighted=True), (1, 2), configs=[
+        {"rows": [_subtotal("r1_2", [1], [2], anchor="top", sid=1), _subtotal("r12", [1, 2], anchor="bottom", sid=2)],
+         "cols": [_subtotal("c23_1", [2, 3], [1], anchor=1, sid=1)]}], quick=2, thorough=3)
 SCHEMAS = REG.schemas
+
+
+def _check_diffmask(space, state):
+    """mask == (the partition's own unweighted base < threshold); a NaN base is not below any threshold"""
+    sch = REG.schemas[space]
+    data = REG.dataset(space, state)
+    cfg = REG.config(space, state)
+    V, asserted, outs = [], 0, []
+    for t in (1, 2, 3):
+        part = Cube(tabulate(sch, data), transforms=transforms_for(cfg), mask_size=t).partitions[0]
+        m = part.min_base_size_mask
+        for mname, bname in (("row_mask", "row_unweighted_bases"), ("column_mask", "column_unweighted_bases"),
+                             ("table_mask", "table_unweighted_bases")):
+            b = np.asarray(getattr(part, bname), dtype=float)
+            with np.errstate(invalid="ignore"):
+                want = b < t
+            asserted += 1
+            d = first_diff(getattr(m, mname), want.tolist())
+            if d is not None:
+                V.append(viol("diffmask:%s@%d" % (mname, t), "%s cell %s: %r, but the unweighted base there is %r (threshold %d)"
+                              % (mname, d[0], d[1], b[tuple(d[0])], t), output=mname))
+        outs.append(arr_bytes(np.asarray(m.row_mask, dtype=float)))
+    return Res(V, len(data) > 0, digest(space, state[1], *outs), asserted)
 
 
 # ---- multitable cube set whose second cube is a single-column filter over a text variable: the
@@ -115,6 +143,8 @@ BASES = [("row_weighted_bases", "row_base", True), ("row_unweighted_bases", "row
 def check(space, state):
     if space == FS:
         return _check_fs(state)
+    if space.startswith("diffmask"):
+        return _check_diffmask(space, state)
     sch, data, cfg, cube, oracles = REG.build(space, state)
     V = []
     asserted = 0
